@@ -17,7 +17,7 @@ from pyvc.contracts import FnContract, LoopSpec, Raises
 from pyvc.ops import Unsupported
 from pyvc.state import HeapObj
 from pyvc.symex import Executor
-from pyvc.values import NONE, VBool, VBytes, VExt, VInt, VRef, VSeq, VStr, VTuple, VUnk, ext_sort, fresh_name
+from pyvc.values import NONE, VBool, VBytes, VExt, VFunc, VInt, VRef, VSeq, VStr, VTuple, VUnk, ext_sort, fresh_name
 from pyvc.verify import Maker, p_const
 
 AES = "sharepoint2text/parsing/extractors/pdf/_pypdf_aes_fallback.py"
@@ -211,10 +211,20 @@ class C20Executor(Executor):
     # ---- havoc of symbolic arrays in loops
     def havoc_loop_state(self, st, body, spec, extra_names=()):
         sym = {r: st.heap[r] for r in self.mutated_refs(body, st) if st.heap.get(r) is not None and st.heap[r].kind == "symarr"}
+        carried = []
+        if spec is not None and getattr(spec, "rebind", None) == "carried-16-byte-blocks":
+            # a bytes-like local bound before the loop and re-assigned in it (the CBC chaining block): after the havoc it is an
+            # arbitrary 16-byte block -- that its length IS 16 in every iteration is part of the loop invariant (proved)
+            for name in sorted(self.assigned_names(body)):
+                cur = st.lookup(name)
+                if cur is not None and (isinstance(cur, VBytes) or self._is_symb(cur)):
+                    carried.append(name)
         super().havoc_loop_state(st, body, spec, extra_names)
         for r, o in sym.items():
             st.heap[r] = HeapObj("symarr", (o.data[0], z3.Array(fresh_name("out"), I, BV8)))
-        if spec is not None and getattr(spec, "rebind", None):
+        for name in carried:
+            st.bind(name, VBytes([VInt(z3.BitVec(fresh_name(f"{name}_{t}"), 8)) for t in range(16)]))
+        if spec is not None and isinstance(getattr(spec, "rebind", None), dict):
             for name, fn in spec.rebind.items():
                 st.bind(name, fn(self, st))
 
@@ -269,6 +279,140 @@ class C20Executor(Executor):
         if isinstance(v, VExt) and v.sort == "RoundKeys":
             return VBool(True)
         return super().truth(st, v)
+
+
+# ------------------------------------------------------- the installation site --
+PYPDF_FALLBACK, PYPDF_PROVIDERS, PYPDF_ENCRYPTION = "pypdf._crypt_providers._fallback", "pypdf._crypt_providers", "pypdf._encryption"
+PYPDF_MODULES = (PYPDF_FALLBACK, PYPDF_PROVIDERS, PYPDF_ENCRYPTION)
+DRIVERS = ("aes_ecb_encrypt", "aes_ecb_decrypt", "aes_cbc_encrypt", "aes_cbc_decrypt")
+
+
+class InstallExecutor(C20Executor):
+    """Runs the REAL `patch_pypdf_fallback_aes` on an abstract model of the three pypdf modules it patches (ASSUMED: on the
+    fallback provider `CryptAES` is one class object shared by the three modules, the four aes_* names are stubs that raise
+    DependencyError, `crypt_provider` is a pair of strings).  Modules and the class are heap objects, so that what the code
+    stores -- directly, through setattr, through helpers or loops -- is read off the final heap."""
+
+    def module_obj(self, st, name):
+        mods = st.ghost.get("pypdf-modules", {})
+        if name not in mods:
+            data = {}
+            if name in PYPDF_MODULES:
+                cls = self.class_obj(st)
+                data = {"CryptAES": cls}
+                data.update({d: VFunc("ext", f"pypdf-stub-raising-DependencyError.{d}") for d in DRIVERS})
+            if name == PYPDF_PROVIDERS:
+                data["crypt_provider"] = VTuple([VStr(z3.String("crypt_provider!name")), VStr(z3.String("crypt_provider!version"))])
+            ref = st.alloc(HeapObj("obj", data, f"module:{name}", fresh=False), self.refs)
+            st.ghost["pypdf-modules"] = dict(st.ghost.get("pypdf-modules", {}), **{name: ref})
+        return VRef(st.ghost["pypdf-modules"][name])
+
+    def class_obj(self, st):
+        if "pypdf-CryptAES" not in st.ghost:
+            st.ghost["pypdf-CryptAES"] = st.alloc(HeapObj("obj", {}, "class:CryptAES", fresh=False), self.refs)
+        return VRef(st.ghost["pypdf-CryptAES"])
+
+    def s_Import(self, s, st):
+        from pyvc.symex import Outcome
+        for a in s.names:
+            if a.name.split(".")[0] != "pypdf":
+                return super().s_Import(s, st)
+            st.bind(a.asname or "pypdf", self.module_obj(st, a.name if a.asname else "pypdf"))
+        return [Outcome("fall", st)]
+
+    def s_ImportFrom(self, s, st):
+        from pyvc.symex import Outcome
+        if (s.module or "").split(".")[0] != "pypdf" or s.level:
+            return super().s_ImportFrom(s, st)
+        for a in s.names:
+            full = f"{s.module}.{a.name}"
+            if any(m == full or m.startswith(full + ".") for m in PYPDF_MODULES):
+                st.bind(a.asname or a.name, self.module_obj(st, full))
+            else:
+                for (_s2, v) in self.get_attr(st, self.module_obj(st, s.module), a.name, s):
+                    st.bind(a.asname or a.name, v)
+        return [Outcome("fall", st)]
+
+    def get_attr(self, st, base, attr, node):
+        if isinstance(base, VFunc) and attr in ("__name__", "__qualname__") and base.how in ("repo", "closure"):
+            return [(st, VStr(base.b.split(".")[-1] if base.how == "repo" else base.a.name))]
+        if isinstance(base, VRef) and st.obj(base.ref).kind == "obj" and (st.obj(base.ref).cls or "").startswith("module:"):
+            o = st.obj(base.ref)
+            if attr in o.data:
+                return [(st, o.data[attr])]
+            name = o.cls[len("module:"):] + "." + attr
+            if any(m == name or m.startswith(name + ".") for m in PYPDF_MODULES):
+                return [(st, self.module_obj(st, name))]
+            return [(st, VUnk(f"{name}"))]
+        return super().get_attr(st, base, attr, node)
+
+
+def run_install_site(repo):
+    """-> {"error": str} | {"outcomes": [(state, returned V)], "ex": executor, "fnode": ...}   (cached per tree)"""
+    from pyvc import loader
+    from pyvc.contracts import Registry
+    from pyvc.exctypes import Universe
+    from pyvc.state import Frame, State
+    key = repo or loader.REPO
+    if key in _INSTALL_CACHE:
+        return _INSTALL_CACHE[key]
+    res = {}
+    try:
+        m = loader.module(AES, repo)
+        fnode = m.functions.get("patch_pypdf_fallback_aes")
+        if fnode is None:
+            raise Unsupported("patch_pypdf_fallback_aes not found")
+        ex = InstallExecutor(m, Registry(), Universe(key))
+        st = State()
+        st.frames = [Frame({}, None, fnode)]
+        ex.cur_fn_stack.append(fnode)
+        ex.sinks.append([])
+        try:
+            outs = ex.exec_block(fnode.body, st)
+        finally:
+            raised = ex.sinks.pop()
+            ex.cur_fn_stack.pop()
+        if ex.exc_any_sites:
+            raise Unsupported("the installation function calls code without a model: " + "; ".join(sorted(ex.exc_any_sites))[:200])
+        res = {"ex": ex, "fnode": fnode, "module": m, "raised": raised,
+               "outcomes": [(o.st, o.val if o.kind == "return" else NONE) for o in outs if o.kind in ("return", "fall")]}
+    except Unsupported as e:
+        res = {"error": str(e)}
+    except Exception as e:  # noqa -- a shape the model does not cover is not an engine error: undecided, native replay decides
+        res = {"error": f"{type(e).__name__}: {e}"}
+    _INSTALL_CACHE[key] = res
+    return res
+
+
+_INSTALL_CACHE = {}
+
+
+def installed_methods(repo):
+    """{"__init__" | "encrypt" | "decrypt": qualname} of the functions the real installation code binds on CryptAES (data flow of
+    the executed function, not names); {} when the site is not understood"""
+    r = run_install_site(repo)
+    found = {}
+    for (st, val) in r.get("outcomes", []):
+        if not (isinstance(val, VBool) and z3.is_true(z3.simplify(val.t))):
+            continue
+        if "pypdf-CryptAES" not in st.ghost:
+            continue
+        data = st.obj(st.ghost["pypdf-CryptAES"]).data
+        for role in ("__init__", "encrypt", "decrypt"):
+            q = func_qualname(r, data.get(role))
+            if q is not None:
+                found.setdefault(role, set()).add(q)
+    return {k: next(iter(v)) for k, v in found.items() if len(v) == 1}
+
+
+def func_qualname(r, v):
+    if isinstance(v, VFunc) and v.how == "repo" and v.a == AES:
+        return v.b
+    if isinstance(v, VFunc) and v.how == "closure":
+        for q, node in r["module"].functions.items():
+            if node is v.a:
+                return q
+    return None
 
 
 # ------------------------------------------------------------- spec relations --
